@@ -207,6 +207,15 @@ def run(ctx):
                            f"store {c['rows']} are not the completed calls of admitted functions outside __main__; functions: "
                            + "; ".join(f"{f['id']}={f['module']}.{f['qualname']}" for f in c["funcs"])
                            + f"; top-level calls {c['top']}")
+            if c["admitted"] is not None:         # readable hint only; the verdict above is Coq's
+                by_row = {(f["module"], f["qualname"]): f for f in c["funcs"]}
+                wrong = sorted({f"{m}.{q}" for m, q in map(tuple, c["rows"])
+                                if (m, q) not in by_row or by_row[(m, q)]["id"] not in c["admitted"] or m == "__main__"})
+                called = {i for _, i, _ in c["history"]}
+                missing = sorted(f"{f['module']}.{f['qualname']}" for f in c["funcs"]
+                                 if f["id"] in c["admitted"] and f["id"] in called and f["module"] != "__main__"
+                                 and [f["module"], f["qualname"]] not in c["rows"])
+                rec["what"] += f"; recorded although rejected: {wrong}; admitted and called but absent: {missing}"
             if named and skips_name:
                 rec["finding"] = KF_NAME
                 rec["what"] = (f"a user function named `trace_types` ({named[0]['module']}.trace_types), accepted by the custom filter and "
@@ -237,6 +246,18 @@ def run(ctx):
     dist["e2e_rows"] = sum(len(c["rows"]) for c in ecases)
     dist["e2e_modes"] = {m: sum(1 for c in ecases if c["mode"] == m) for m in ("run-custom", "trace-custom", "run-default")}
     dist["tracer_still_skips_co_name_trace_types"] = skips_name
+    shared = [(c, f) for c in ecases for f in c["funcs"]
+              if f["module"] != "__main__" and sum(1 for g in c["funcs"] if g["module"] == f["module"] and g["co_name"] == f["co_name"]) > 1]
+    dist["e2e_functions_sharing_a_bare_name_in_one_file"] = len(shared)
+    dist["e2e_nested_functions"] = sum(1 for c in ecases for f in c["funcs"] if "<locals>" in f["qualname"])
+    dist["e2e_rows_of_shared_name_functions"] = sum(1 for c in ecases for r in c["rows"]
+                                                    if any(f["module"] == r[0] and f["qualname"] == r[1] for cc, f in shared if cc is c))
+    dist["e2e_rows_of_nested_functions"] = sum(1 for c in ecases for r in c["rows"] if "<locals>" in r[1])
+    dist["e2e_custom_filters_splitting_a_shared_name"] = sum(
+        1 for c in ecases if c["admitted"] is not None and any(
+            (f["id"] in c["admitted"]) != (g["id"] in c["admitted"])
+            for f in c["funcs"] for g in c["funcs"]
+            if f["id"] < g["id"] and f["module"] == g["module"] != "__main__" and f["co_name"] == g["co_name"]))
     samples = [{"co_filename": c["raw"], "resolved": c["resolved"], "env": c["env"], "impl": c["impl"], "code_objects": c["n_code"]}
                for c in (fcases[:1] + [c for c in fcases if c["kind"] == "user" and c["env"]][:1])]
     if ecases:
@@ -253,7 +274,8 @@ def run(ctx):
                 "MONKEYTYPE_TRACE_MODULES unset and allow-lists of 0..3 names (lru_cache cleared in between; per file all code "
                 f"objects when unset, {'up to 4' if quick else 'all'} per allow-list); identical code compiled under a library and a user "
                 "file name asked in both orders; random log/flush sequences over 14 module names into the real CallTraceStoreLogger; "
-                "generated programs (call DAG over a script and two modules) through `monkeytype run` / monkeytype.trace(config) "
+                "generated programs (call DAG over a script and two modules; methods `run` of two classes, module functions and nested "
+                "functions sharing a bare name within one file, custom filters by co_qualname deciding differently for them) through `monkeytype run` / monkeytype.trace(config) "
                 "with custom filters over random subsets, DefaultConfig and allow-lists into a SQLite store. Evaluations = real "
                 "filter calls + logger cases + programs; non-trivial = distinct (file, allow-list, answer) cases whose path has more "
                 "than two components + distinct logger cases + programs",
